@@ -108,6 +108,8 @@ type c04Ctl struct {
 	holdServer chan struct{} // closed to release a held server goroutine
 	ioCount    atomic.Int64
 	ioAt       int64
+	splitAt    int64 // iosplit:k/j - split the k-th read at j/8 of its length
+	splitNum   int
 	gate       *c06Gate // C06: hold the unary server goroutine at its start
 }
 
@@ -227,10 +229,15 @@ func nextFrameAfter(clientPoint string) string {
 	return ""
 }
 
-// ioConn fires the instant at the k-th I/O call on the client's connection.
+// ioConn fires the instant at the k-th I/O call on the client's connection (io:k), or - iosplit:k -
+// delivers only the first part of what the k-th read obtains, fires the instant, and hands out
+// the rest afterwards: the context then ends in the middle of whatever frame was arriving.
 type ioConn struct {
 	net.Conn
-	k *c04Ctl
+	k       *c04Ctl
+	mu      sync.Mutex
+	pending []byte
+	reads   int64
 }
 
 func (c *ioConn) tick() {
@@ -239,7 +246,38 @@ func (c *ioConn) tick() {
 		c.k.fire(fmt.Sprintf("io:%d", n))
 	}
 }
-func (c *ioConn) Read(p []byte) (int, error)  { c.tick(); return c.Conn.Read(p) }
+func (c *ioConn) Read(p []byte) (int, error) {
+	c.mu.Lock()
+	if len(c.pending) > 0 {
+		n := copy(p, c.pending)
+		c.pending = c.pending[n:]
+		c.mu.Unlock()
+		return n, nil
+	}
+	c.reads++
+	split := c.k.splitAt > 0 && c.reads == c.k.splitAt
+	c.mu.Unlock()
+	c.tick()
+	n, err := c.Conn.Read(p)
+	if split && n >= 2 {
+		keep := n * c.k.splitNum / 8
+		if keep < 1 {
+			keep = 1
+		}
+		if keep >= n {
+			keep = n - 1
+		}
+		c.mu.Lock()
+		c.pending = append([]byte{}, p[keep:n]...)
+		c.mu.Unlock()
+		go func() {
+			time.Sleep(150 * time.Microsecond) // let the first part be consumed
+			c.k.fire(fmt.Sprintf("iosplit:%d", c.k.splitAt))
+		}()
+		return keep, err
+	}
+	return n, err
+}
 func (c *ioConn) Write(p []byte) (int, error) { c.tick(); return c.Conn.Write(p) }
 
 var c04Hdr = metadata.Pairs("zz-h", "hv")
@@ -254,6 +292,9 @@ func c04Run(c *c04Case, carrier string, rep int) *c04Obs {
 	ctl := &c04Ctl{c: c, ctx: mctx, holdServer: make(chan struct{})}
 	if strings.HasPrefix(c.Point, "io:") {
 		fmt.Sscanf(c.Point, "io:%d", &ctl.ioAt)
+	}
+	if strings.HasPrefix(c.Point, "iosplit:") {
+		fmt.Sscanf(c.Point, "iosplit:%d/%d", &ctl.splitAt, &ctl.splitNum)
 	}
 	var mu sync.Mutex
 	wantCode := codes.Canceled
@@ -609,6 +650,9 @@ func propC04(c c04Case) *Outcome {
 	if i := strings.LastIndex(pclass, ":"); i > 0 && !strings.HasPrefix(pclass, "hook:") {
 		pclass = pclass[:i]
 	}
+	if strings.HasPrefix(c.Point, "iosplit:") {
+		pclass = "iosplit"
+	}
 	o.class("point=%s", pclass)
 	if strings.HasPrefix(c.Point, "hook:") {
 		c04InstallHook()
@@ -638,7 +682,7 @@ func propC04(c c04Case) *Outcome {
 				continue
 			}
 			// is the oracle right? the standard transport must satisfy it on the same case
-			if !strings.HasPrefix(c.Point, "hook:") && !strings.HasPrefix(c.Point, "io:") {
+			if !strings.HasPrefix(c.Point, "hook:") && !strings.HasPrefix(c.Point, "io") {
 				ref := c04Run(&c, cGRPC, r)
 				if ref.Fault != "" {
 					o.Inconclusive = fmt.Sprintf("reference transport fails the oracle too (%s); SUT: %s", firstLine(ref.Fault), firstLine(obs.Fault))
@@ -688,6 +732,11 @@ func c04Points(carrier, kind string, nreq, nresp int, attitude string) []string 
 	if isHTTP(carrier) {
 		for k := 1; k <= 12; k++ {
 			ps = append(ps, fmt.Sprintf("io:%d", k))
+		}
+		for k := 1; k <= 6; k++ {
+			for _, j := range []int{1, 4, 7} {
+				ps = append(ps, fmt.Sprintf("iosplit:%d/%d", k, j))
+			}
 		}
 	}
 	return ps
